@@ -209,13 +209,14 @@ pub fn magic_sweep(kv: &Args) {
 pub fn dump_tables() {}
 
 pub struct Extra {
+    pub last_sched_stats: (u64, u64),
     pub sctx: Option<SearchContext>,
     pub game: Option<Game>,
     pub book: Option<Book>,
 }
 impl Extra {
     pub fn new() -> Extra {
-        Extra { sctx: None, game: None, book: None }
+        Extra { last_sched_stats: (0, 0), sctx: None, game: None, book: None }
     }
 }
 
@@ -250,6 +251,101 @@ pub fn exec_special(ctx: &mut Ctx, ex: &mut Extra, hist: &mut Vec<String>, toks:
             if before != after {
                 s.push_str(" BOARD-CHANGED");
             }
+            s
+        }
+        "sched" => {
+            // sched <threads> <seed> <mode>: alpha_beta_search in a rayon pool of the given size with the
+            // cfg(chess_verif) hook installed: every shared-cache write is observed (a key that ever
+            // receives two different values is the root of schedule dependence) and every yield point
+            // (task begin/end, cache read/write) perturbs the schedule by a seeded strategy:
+            //   mode 0 = free running; 1 = random yields/sleeps; 2 = per-task priorities (low-priority
+            //   tasks are delayed at every event); 3 = bounded preemption (a few long stalls)
+            use chess::alpha_beta_searcher::verif_hooks::{set_hook, Event};
+            use std::collections::HashMap;
+            use std::sync::atomic::{AtomicU64, Ordering};
+            use std::sync::{Arc, Mutex};
+            let threads: usize = toks[1].parse().unwrap();
+            let seed: u64 = toks[2].parse().unwrap();
+            let mode: u64 = toks[3].parse().unwrap();
+            let sc = ex.sctx.as_mut().expect("sctx first");
+            let writes: Arc<Mutex<HashMap<String, i16>>> = Arc::new(Mutex::new(HashMap::new()));
+            let conflicts: Arc<Mutex<Vec<String>>> = Arc::new(Mutex::new(vec![]));
+            let events = Arc::new(AtomicU64::new(0));
+            let prio: Arc<Mutex<HashMap<String, u64>>> = Arc::new(Mutex::new(HashMap::new()));
+            thread_local! { static CUR_TASK: std::cell::RefCell<String> = std::cell::RefCell::new(String::new()); }
+            let (w2, c2, e2, p2) = (writes.clone(), conflicts.clone(), events.clone(), prio.clone());
+            set_hook(Some(Arc::new(move |ev: &Event| {
+                let n = e2.fetch_add(1, Ordering::SeqCst);
+                match ev {
+                    Event::TaskBegin(name) => {
+                        CUR_TASK.with(|t| *t.borrow_mut() = name.clone());
+                        let mut h = seed ^ 0x9E3779B97F4A7C15;
+                        for b in name.bytes() {
+                            h = (h ^ b as u64).wrapping_mul(0x100000001B3);
+                        }
+                        p2.lock().unwrap().insert(name.clone(), h % 8);
+                    }
+                    Event::CacheWrite(k, v) => {
+                        let mut w = w2.lock().unwrap();
+                        if let Some(old) = w.get(k) {
+                            if *old != *v {
+                                c2.lock().unwrap().push(format!("{} written with {} and {}", k, old, v));
+                            }
+                        } else {
+                            w.insert(k.clone(), *v);
+                        }
+                    }
+                    _ => {}
+                }
+                // perturbation
+                let mut z = seed.wrapping_add(n.wrapping_mul(0x9E3779B97F4A7C15));
+                z = (z ^ (z >> 30)).wrapping_mul(0xBF58476D1CE4E5B9);
+                z = (z ^ (z >> 27)).wrapping_mul(0x94D049BB133111EB);
+                z ^= z >> 31;
+                match mode {
+                    1 => {
+                        if z % 4 == 0 {
+                            std::thread::yield_now();
+                        } else if z % 16 == 1 {
+                            std::thread::sleep(std::time::Duration::from_micros(z % 200));
+                        }
+                    }
+                    2 => {
+                        let name = CUR_TASK.with(|t| t.borrow().clone());
+                        let p = *p2.lock().unwrap().get(&name).unwrap_or(&0);
+                        if p > 0 && z % 8 < p {
+                            std::thread::sleep(std::time::Duration::from_micros(20 * p));
+                        }
+                    }
+                    3 => {
+                        if z % 97 == 0 {
+                            std::thread::sleep(std::time::Duration::from_millis(2));
+                        }
+                    }
+                    _ => {}
+                }
+            })));
+            let before = crate::scen::full_snapshot(&ctx.board);
+            let pool = rayon::ThreadPoolBuilder::new().num_threads(threads).build().unwrap();
+            ctx.fresh.clear_caches_for_verif();
+            let board = &mut ctx.board;
+            let mg = &mut ctx.fresh;
+            let res = catch_unwind(AssertUnwindSafe(|| pool.install(|| alpha_beta_search(sc, board, mg))));
+            set_hook(None);
+            let after = crate::scen::full_snapshot(&ctx.board);
+            let mut s = match res {
+                Ok(Ok(m)) => format!("sched Ok {} {}", sc.last_score().unwrap(), mv_text(&m)),
+                Ok(Err(e)) => format!("sched Err {:?}", e),
+                Err(_) => "sched PANIC".to_string(),
+            };
+            if before != after {
+                s.push_str(" BOARD-CHANGED");
+            }
+            let cf = conflicts.lock().unwrap();
+            if !cf.is_empty() {
+                s.push_str(&format!(" CONFLICT[{}]", cf[0]));
+            }
+            ex.last_sched_stats = (events.load(Ordering::SeqCst), writes.lock().unwrap().len() as u64);
             s
         }
         "perft" => {
@@ -360,6 +456,7 @@ pub fn exec_special(ctx: &mut Ctx, ex: &mut Extra, hist: &mut Vec<String>, toks:
             let last = g.last_move().map(|m| mv_text(&m)).unwrap_or_else(|| "-".into());
             format!("gsnap {} | last {}", game_snap(g, hist), last)
         }
+        "gbsnap" => snap(ex.game.as_ref().unwrap().board()),
         "gover" => {
             let g = ex.game.as_mut().unwrap();
             let e = g.check_game_over_for_current_turn();
@@ -382,9 +479,56 @@ pub fn exec_special(ctx: &mut Ctx, ex: &mut Extra, hist: &mut Vec<String>, toks:
             }
             out
         }
+        "cliin" => {
+            // cliin <text>: the text goes through the REAL command-line input layer
+            // (input_handler::parse_player_move_input reads it from this process's stdin, which
+            // is a pipe we feed) and the resulting command is executed on the game, exactly as
+            // the pvp / play loops do.
+            let g = ex.game.as_mut().unwrap();
+            let text = if toks.len() > 1 { toks[1] } else { "" };
+            feed_stdin(text);
+            let parsed = catch_unwind(AssertUnwindSafe(|| chess::input_handler::parse_player_move_input()));
+            match parsed {
+                Err(_) => "cliin PANIC".to_string(),
+                Ok(Err(_)) => "cliin refused-parser".to_string(),
+                Ok(Ok(cmd)) => match catch_unwind(AssertUnwindSafe(|| cmd.execute(g))) {
+                    Err(_) => "cliin PANIC".to_string(),
+                    Ok(Err(_)) => "cliin refused-game".to_string(),
+                    Ok(Ok(m)) => {
+                        hist.push(mv_text(&m));
+                        format!("cliin accepted {}", mv_text(&m))
+                    }
+                },
+            }
+        }
         _ => return None,
     };
     Some(r)
+}
+
+extern "C" {
+    fn pipe(fds: *mut i32) -> i32;
+    fn dup2(a: i32, b: i32) -> i32;
+    fn write(fd: i32, buf: *const u8, n: usize) -> isize;
+}
+static STDIN_WRITE_FD: std::sync::atomic::AtomicI32 = std::sync::atomic::AtomicI32::new(-1);
+
+/// make this process's stdin a pipe (once) and write one line into it
+fn feed_stdin(line: &str) {
+    use std::sync::atomic::Ordering;
+    let mut w = STDIN_WRITE_FD.load(Ordering::SeqCst);
+    if w < 0 {
+        let mut fds = [0i32; 2];
+        unsafe {
+            assert!(pipe(fds.as_mut_ptr()) == 0);
+            assert!(dup2(fds[0], 0) == 0);
+        }
+        w = fds[1];
+        STDIN_WRITE_FD.store(w, Ordering::SeqCst);
+    }
+    let data = format!("{}\n", line);
+    let n = unsafe { write(w, data.as_ptr(), data.len()) };
+    assert!(n == data.len() as isize);
 }
 
 pub fn search_cmd(_kv: &Args) {}
